@@ -40,7 +40,15 @@ func VerifC12_blind_factor() {
 	priv, err := GenerateKey(c, &c13Reader{failAt: 1000})
 	vAssume(err == nil)
 	// blind key encodings of any length up to one byte more than the order: leading zeros, values >= n
-	enc := vBytesC("blind_key", 1, vBound("C12_blind_len", 3, 67))
+	var enc []byte
+	if vBool("near_order") {
+		// quick tier: the two curves pat-go itself uses for blinding vectors; thorough: all four
+		vAssume(vBound("C12_near_order_all_curves", 0, 1) == 1 || c.Params().BitSize == 256 || c.Params().BitSize == 384)
+		bl := (c.Params().BitSize + 7) / 8
+		enc = vBytesC("blind_key", bl-1, bl+1) // around the size of n: values below and above n
+	} else {
+		enc = vBytesC("blind_key", 1, vBound("C12_blind_len", 3, 20))
+	}
 	bk, err := CreateKey(c, enc)
 	vAssume(err == nil)
 	ctx := vBytesC("context", 0, vBound("C12_ctx_len", 2, 6))
